@@ -115,8 +115,9 @@ def run_shard(spec):
         leaves = [p for p, nd in paths if nd.kind == "leaf" and not (nd.tokens and nd.tokens[0][0] == "inherit")]
         wl = E.wrappers_label(dv)
         base_case = {"text": text, "prefix": prefix, "initial": text0}
-        val = rng.choice(E.VALUE_POOL)
-        val2 = rng.choice([v for v in E.VALUE_POOL if v != val])
+        pool = E.VALUE_POOL + E.MULTILINE_VALUES
+        val = rng.choice(pool)
+        val2 = rng.choice([v for v in pool if v != val])
         try:
             # ---- idempotence
             cands = leaves + [("fresh" + str(rng.randrange(99)),)]
@@ -160,6 +161,25 @@ def run_shard(spec):
                                                               else "other")},
                                     {**base_case, "ops": [["set", sp, val], ["rm", sp, ""]]},
                                     f"BACK={back!r}")
+            # ---- restore inside a nested explicit set (also one written on one line)
+            nested_sets = [p for p, nd in paths if nd.kind == "set" and nd.explicit and not nd.via_attrpath and len(p) <= 2]
+            if not prefix and nested_sets:
+                base_p = rng.choice(nested_sets)
+                sp = E.spell(base_p + ("zz" + str(rng.randrange(1000)),))
+                back, r = run_seq(text, [E.Op("set", sp, val), E.Op("rm", sp, "")])
+                res["evaluations"] += 1
+                if back is None:
+                    obs["refused_instances"] += 1
+                else:
+                    B.bump(obs["laws"], "restore-nested")
+                    nontriv.add(B.h64(text + "\0restore-nested\0" + sp + val))
+                    if back != text:
+                        witness("restore", {"effect": "set-then-rm-did-not-restore-text", "wrappers": wl,
+                                            "scoped": "False", "layers": str(min(len(dv.layers), 3)),
+                                            "nested": "yes", "multiline_value": "yes" if "\n" in val else "no",
+                                            "tree_restored": str(tree_of(back) == tree_of(text)),
+                                            "diff_kind": ("final-newline-only" if back + "\n" == text else "other")},
+                                {**base_case, "ops": [["set", sp, val], ["rm", sp, ""]]}, f"BACK={back!r}")
             # ---- rm then set old value: same tree
             simple_leaves = [p for p in leaves if len(p) == 1]
             if simple_leaves or leaves:
